@@ -452,5 +452,5 @@ def parts(tier):
     return [
         Part("histories", check_history, cases=history_cases, exhaustive=True),
         Part("split-grid", check_split, cases=split_cases, exhaustive=True),
-        Part("rotation", check_rotation, strategy=rotation_case(), examples=(60, 1200)),
+        Part("rotation", check_rotation, strategy=rotation_case(), examples=(150, 8000)),
     ]
